@@ -123,7 +123,7 @@ func (memPool *MemPool) AddTransaction(ctx context.Context, tx *wire.MsgTx,
 		}
 	}
 
-	return conflicts, trusted, true
+	return conflicts, memTx.trusted, true
 }
 
 // Appends the items in add to list if they are not already in list
